@@ -14,7 +14,7 @@ def clamp(ctx, rule="R06.1"):
     site = KB + "::Krige.__call__"
     # def-use chain of `krige_var` in statement order
     defs = []
-    for st in sorted((x for x in ast.walk(call) if isinstance(x, ast.Assign)), key=lambda x: x.lineno):
+    for st in sorted((x for x in ast.walk(call) if isinstance(x, ast.Assign)), key=lambda x: x._ord):
         for t in st.targets:
             if isinstance(t, ast.Name) and t.id == "krige_var":
                 defs.append(st)
@@ -55,8 +55,8 @@ def clamp(ctx, rule="R06.1"):
         for n in ast.walk(call):
             if isinstance(n, ast.Expr) and isinstance(n.value, ast.Call) and ast.unparse(n.value.func) == "self.post_field" and any("krige_var" in ast.unparse(a) for a in n.value.args):
                 pf.append(n)
-                stored_ok = stored_ok and n.lineno > cl.lineno and "np.maximum" not in ast.unparse(n.value) and False
-        ctx.check(state is True and stored_ok and rets[0].lineno > cl.lineno, rule, site,
+                stored_ok = stored_ok and n._ord > cl._ord and "np.maximum" not in ast.unparse(n.value) and False
+        ctx.check(state is True and stored_ok and rets[0]._ord > cl._ord, rule, site,
                   "every value stored or returned as kriging variance is the clamped one (after the clamp only shape-preserving operations follow)", "dominates")
         ok = len(pf) == 1 and isinstance(pf[0], ast.Assign) and [ast.unparse(a) for a in pf[0].value.args[1:]] == ["name[1]", "False", "save[1]"]
         ctx.check(ok, rule, site, "the stored variance is not post-processed (no mean/normalizer/trend applied to a variance)", "store-raw")
